@@ -354,7 +354,8 @@ def _body(ctx, case):
     _model_ok(ctx, Mr, shape, R, "recorded-")
     ir = H.as_int(outr["iters"]) if isinstance(outr, dict) and "iters" in outr else None
     ctx.check(ir == iters, "recorded-run-same-iteration-count", (ir, iters))
-    ctx.check(H.sq(ref.den(Mr) - Dm) <= 1e-18 * S, "recorded-run-same-model")
+    # 'nvecs' recomputes the guess; ARPACK's internal random start perturbs it by eps/eigen-gap -> looser comparison
+    ctx.check(H.sq(ref.den(Mr) - Dm) <= (1e-10 if case["init"] == "nvecs" else 1e-18) * S, "recorded-run-same-model")
     ns = [n for n, _ in rec.calls]
     ctx.require(ns == seq * (ir + 1 if ir is not None else 0), "mode-update-sequence",
                 f"requested modes {ns[:12]}... expected {seq} x {ir + 1 if ir is not None else '?'}")
